@@ -36,7 +36,7 @@ def main():
         'version': 1,
         'setup_cmd': 'cd lean && lake build',
         'hooks': {'guard': 'SKOOLKIT_VERIF', 'enable': 'no source hooks are needed: the checks import /repo in-process and compile c/csimulator.c themselves',
-                  'baseline_off_cmd': 'cd /repo && /venv/bin/python -m pytest -q -p no:cacheprovider --timeout=900',
+                  'baseline_off_cmd': 'cd /repo && env -u SKOOLKIT_VERIF /venv/bin/python -m pytest -ra -q -p no:cacheprovider --timeout=900 --continue-on-collection-errors',
                   'source_commits': [], 'add_only': True},
         'engines': [{'name': 'lean4-skoolverif', 'path': 'lean', 'serves_properties': [c['property_id'] for c in checks],
                      'kind_free_text': 'Lean 4 library (generated + hand models, specs, theorems) with a Python harness: translator, correspondence, e2e search'}],
